@@ -11,16 +11,105 @@ def rand_valid_glyph(rng):
     return [cs, rng.choice([0, 0x1B, 0x5B, 0x6D, 0x80, 0x9B, 0xFF, rng.randrange(256)]), rng.choice([0, 0x55, rng.randrange(256)]), rng.choice([0, 0xAA])]
 
 
+def rand_text_hex(rng, allow_nul=True):
+    n = rng.choice([0, 1, 2, 3, 5, 9])
+    alphabet = [0x41, 0x62, 0x20, 0x1B, 0x5C, 0x7F, 0x80, 0xE9, 0xFF, rng.randrange(256)] + ([0, 0] if allow_nul else [])
+    bs = [rng.choice(alphabet) for _ in range(n)]
+    return bs, ("".join("%02x" % b for b in bs) or "-")
+
+
+def string_program(rng, valid=True):
+    """a random program over class terminalpp::string on four registers; sizes are tracked so that most positions are
+    in range (out-of-range ones are skipped identically by executor and model)"""
+    size = [0, 0, 0, 0]
+    parts = []
+
+    def el():
+        g = rand_valid_glyph(rng) if valid else tg.any_glyph(rng)
+        return g + (tg.attr(rng) if rng.random() < 0.7 else list(tg.DEFAULT_ATTR))
+
+    def pos(n):
+        return rng.choice([0, n, n // 2, max(0, n - 1), rng.randrange(n + 1), n + rng.choice([0, 0, 0, 1])])
+    for _ in range(rng.choice([2, 3, 5, 8, 14])):
+        r, q, t = rng.randrange(4), rng.randrange(4), rng.randrange(4)
+        op = rng.choice(["cz", "cl", "cs", "ca", "ca", "cn", "ci", "il", "ts", "ae", "as", "as", "pe", "ps", "ie", "ie", "ir", "ir",
+                         "ea", "ef", "er", "er", "sw", "ix"])
+        if op in ("cz", "cl", "cs", "ts"):
+            bs, h = rand_text_hex(rng)
+            parts.append("%s %d %s" % (op, r, h))
+            size[r] = (bs.index(0) if 0 in bs else len(bs)) if op == "cz" else len(bs)
+        elif op == "ca":
+            bs, h = rand_text_hex(rng)
+            parts.append("ca %d %s %s" % (r, h, " ".join(map(str, tg.attr(rng)))))
+            size[r] = len(bs)
+        elif op == "cn":
+            n = rng.choice([0, 1, 2, 5])
+            parts.append("cn %d %d %s" % (r, n, tg.fmt_el(el())))
+            size[r] = n
+        elif op in ("ci", "il"):
+            n = rng.choice([0, 1, 2, 3]) if op == "il" else rng.choice([0, 1, 2, 3, 6])
+            parts.append("%s %d %d %s" % (op, r, n, " ".join(tg.fmt_el(el()) for _ in range(n))))
+            size[r] = n
+        elif op == "ae":
+            parts.append("ae %d %s" % (r, tg.fmt_el(el())))
+            size[r] += 1
+        elif op == "as":
+            parts.append("as %d %d" % (r, q))
+            size[r] += size[q]
+        elif op == "pe":
+            parts.append("pe %d %d %s" % (r, q, tg.fmt_el(el())))
+            size[r] = size[q] + 1
+        elif op == "ps":
+            parts.append("ps %d %d %d" % (r, q, t))
+            size[r] = size[q] + size[t]
+        elif op == "ie":
+            p_ = pos(size[r])
+            parts.append("ie %d %d %s" % (r, p_, tg.fmt_el(el())))
+            if p_ <= size[r]:
+                size[r] += 1
+        elif op == "ir":
+            p_ = pos(size[r])
+            a = rng.randrange(size[q] + 1)
+            b = rng.choice([a, size[q], rng.randrange(a, size[q] + 1), size[q] + rng.choice([0, 1])])
+            parts.append("ir %d %d %d %d %d" % (r, p_, q, a, b))
+            if p_ <= size[r] and a <= b <= size[q] and q != r:
+                size[r] += b - a
+        elif op == "ea":
+            parts.append("ea %d" % r)
+            size[r] = 0
+        elif op == "ef":
+            p_ = pos(size[r])
+            parts.append("ef %d %d" % (r, p_))
+            if p_ <= size[r]:
+                size[r] = p_
+        elif op == "er":
+            a = rng.randrange(size[r] + 1)
+            b = rng.choice([a, size[r], rng.randrange(a, size[r] + 1), size[r] + rng.choice([0, 1])])
+            parts.append("er %d %d %d" % (r, a, b))
+            if a <= b <= size[r]:
+                size[r] -= b - a
+        elif op == "sw":
+            parts.append("sw %d %d" % (r, q))
+            size[r], size[q] = size[q], size[r]
+        elif op == "ix":
+            i = rng.randrange(size[r] + 1)
+            parts.append("ix %d %d %s" % (r, i, tg.fmt_el(el())))
+    return "P " + " ; ".join(parts)
+
+
 class Prop(PropBase):
     ID = "C17"
     LEAN_MODULES = ["Tpp.Props.C17"]
     REQUIRED = ["Tpp.Props.C17." + n for n in ("C17_roundtrip", "C17_append", "C17_wire", "C17_wire_vt", "payload_eq_toString",
-                                                "writeString_segs")]
+                                                "writeString_segs", "C17_ctor_cstr", "C17_ctor_attr", "C17_ctor_fill",
+                                                "C17_program_text", "C17_insert_text", "C17_erase_text",
+                                                "C17_glyph_from_cstr", "C17_glyph_from_array", "C17_glyph_from_cstr_needs_terminator")] + \
+               ["Tpp.SeqOp.apply_map", "Tpp.SeqOp.run_map"]
     RULE = ("exhaustive: every single byte 0..255 and every pair with NUL/ESC/0xFF through string(bytes)->to_string; every "
             "UTF-8 glyph U+0000..U+FFFF (stride 1 thorough, stride 11 plus all boundaries quick) and every byte 0..255 in a "
             "single-byte charset written through a real terminal with to_string of the same string taken in the same case; "
             "random byte strings with embedded NUL, random attributed strings (valid glyphs of 1-3 bytes incl. bytes that "
-            "look like control functions, random attributes/charsets), long strings of 120-1500 (thorough 5000) elements with attribute churn (several KiB per terminal << string), random splits for concatenation. Non-trivial: "
+            "look like control functions, random attributes/charsets), long strings of 120-1500 (thorough 5000) elements with attribute churn (several KiB per terminal << string), random splits for concatenation; random PROGRAMS over the whole of class string on four registers (every constructor incl. char const* / std::string+attribute / fill / iterator pair / initializer list / _ts, += and + with elements and strings incl. self-append, both inserts, the three erases, swap, operator[] assignment, positions at/around the ends) judged by the same program run on glyph texts, plus the NUL-placement sweep for every byte constructor. Non-trivial: "
             "non-empty input; distinct by line text.")
     ASSUMPTIONS = ["UTF-8 glyphs are zero-padded well-formed encodings (Glyph.Valid); any byte value in single-byte charsets"]
 
@@ -69,6 +158,36 @@ class Prop(PropBase):
             if i % 4 == 0:
                 cs.append(Case("z %d %s %d %s" % (k, " ".join(tg.fmt_el(e) for e in els[:k]), n - k, " ".join(tg.fmt_el(e) for e in els[k:])),
                                tag="long-splits"))
+        # constructors of glyph / element: every byte x a few charsets; every one-, two- and (sampled) three-byte array;
+        # the pointer constructor on every well-formed character class, with and without text after it
+        for b in range(256):
+            for csid in (5, 0, 12):
+                cs.append(Case("G g1 %d %d" % (b, csid), sweep="glyph-ctors"))
+            cs.append(Case("G g2 %d" % b, sweep="glyph-ctors"))
+            cs.append(Case("G e1 %d %s" % (b, " ".join(map(str, tg.attr(rng)))), sweep="glyph-ctors"))
+        for cp in sorted(set(range(0x80, 0x800, 7)) | {0x80, 0x7FF, 0x3FF, 0x400}):
+            u = tg.utf8_bytes(cp)
+            cs.append(Case("G g3 %d %d" % (u[0], u[1]), sweep="glyph-ctors"))
+            cs.append(Case("G gp %02x%02x" % (u[0], u[1]), sweep="glyph-ctors"))
+        for cp in sorted(set(range(0x800, 0x10000, 131 if tier == "quick" else 3)) | {0x800, 0xFFFF, 0xD7FF, 0xE000, 0x20AC}):
+            u = tg.utf8_bytes(cp)
+            cs.append(Case("G g4 %d %d %d" % tuple(u), sweep="glyph-ctors"))
+            cs.append(Case("G gp %02x%02x%02x" % tuple(u), sweep="glyph-ctors"))
+        for b in range(1, 128):
+            cs.append(Case("G gp %02x" % b, sweep="glyph-ctors"))
+            cs.append(Case("G gp %02x41ff" % b, sweep="glyph-ctors"))          # one ASCII character followed by text
+        for _ in range(300 if tier == "quick" else 5000):                          # arbitrary memory: tie only
+            cs.append(Case("G gp " + "".join("%02x" % rng.randrange(256) for _ in range(rng.choice([1, 2, 3, 5]))), tag="glyph-ptr-any", oracle=True))
+            cs.append(Case("G g4 %d %d %d" % (rng.randrange(256), rng.randrange(256), rng.randrange(256)), tag="glyph-arr-any"))
+        # programs over the whole of class string: every constructor and mutator, registers aliasing each other
+        for h in ("00", "4100", "004142", "410042", "ff00ff", "-"):
+            for op in ("cz", "cl", "cs", "ts"):
+                cs.append(Case("P %s 0 %s" % (op, h), sweep="string-ctors-nul"))
+            cs.append(Case("P ca 0 %s 0 1 0 0 0 4 0 0 1 4 7 5" % h, sweep="string-ctors-nul"))
+        for _ in range(2500 if tier == "quick" else 60000):
+            cs.append(Case(string_program(rng), tag="string-programs"))
+        for _ in range(300 if tier == "quick" else 5000):
+            cs.append(Case(string_program(rng, valid=False), tag="string-programs-any-storage", oracle=False))
         # correspondence only: ill-formed UTF-8 storage
         for _ in range(500 if tier == "quick" else 5000):
             els = [[18, rng.randrange(256), rng.choice([0, rng.randrange(256)]), rng.choice([0, rng.randrange(256)])] + tg.DEFAULT_ATTR for _ in range(2)]
